@@ -330,17 +330,7 @@ func Discover(v any, cfg Config) []Action {
 	return w.out
 }
 
-// root makes a non-pointer value addressable the way a local variable is.
-func root(v any) reflect.Value {
-	rv := reflect.ValueOf(v)
-	if !rv.IsValid() {
-		return rv
-	}
-	if rv.Kind() == reflect.Ptr || rv.Kind() == reflect.Interface {
-		return rv
-	}
-	return rv
-}
+func root(v any) reflect.Value { return reflect.ValueOf(v) }
 
 // Result of executing one action.
 type Result struct {
@@ -419,8 +409,6 @@ func Render(v reflect.Value) string {
 	render(&b, v, 0)
 	return b.String()
 }
-
-var errorType = reflect.TypeOf((*error)(nil)).Elem()
 
 func render(b *strings.Builder, v reflect.Value, depth int) {
 	if !v.IsValid() {
@@ -515,12 +503,11 @@ func render(b *strings.Builder, v reflect.Value, depth int) {
 			return
 		}
 		e := v.Elem()
-		if t.Implements(errorType) && e.Type().PkgPath() != "" && !strings.Contains(e.Type().PkgPath(), "insomniacslk") || (e.Kind() == reflect.Ptr && t.Implements(errorType)) {
-			if v.CanInterface() {
-				if err, ok := v.Interface().(error); ok {
-					fmt.Fprintf(b, "error(%q)", err.Error())
-					return
-				}
+		if v.CanInterface() {
+			// error values (standard library or fmt-wrapped): their text is the observation
+			if err, ok := v.Interface().(error); ok {
+				fmt.Fprintf(b, "error(%q)", err.Error())
+				return
 			}
 		}
 		render(b, e, depth+1)
